@@ -73,8 +73,13 @@ def parameter_bounds(ctx, res: Result, ci: ClassInfo) -> None:
             if isinstance(st, ast.AugAssign) or isinstance(st, ast.Call):
                 res.bad("E-bounded-write", inst, fi.site(st), fi.qualname, "bounded field changed by an augmented assignment / setattr: new value is not the checked term", construct=src(st))
                 continue
-            norm_f = Normaliser(norm.base_term, fn=fi.node)
-            E = norm_f.term(st.value)
+            # helpers of the class are expanded (a check moved into a value-returning helper is still the check)
+            from ..inline import with_helpers as _wh
+            fh = _wh(ctx, fi, inline_locals=False)
+            twins = [x for x in ast.walk(fh.node) if isinstance(x, type(st)) and src(x) == src(st)]
+            fnode, st_h = (fh.node, twins[0]) if twins else (fi.node, st)
+            norm_f = Normaliser(norm.base_term, fn=fnode)
+            E = norm_f.term(st_h.value)
             if fi.name == "__init__" and reqs == "value":
                 # bounds do not exist yet: they must be installed afterwards through the checked setters
                 later = [x for x in walk_no_nested(fi.node) if isinstance(x, ast.Attribute) and isinstance(x.ctx, ast.Store) and isinstance(x.value, ast.Name) and x.value.id == "self" and x.attr in ("min_bound", "max_bound")]
@@ -86,7 +91,7 @@ def parameter_bounds(ctx, res: Result, ci: ClassInfo) -> None:
                 res.add(bool(later) and not raw, "E-bounded-write", inst, fi.site(st), fi.qualname,
                         "constructor installs bounds only through the checked setters after the value", "constructor writes a bound field directly (unchecked against the value)", construct=src(st))
                 continue
-            facts = facts_at(fi.node, st, norm_f) or []
+            facts = facts_at(fnode, st_h, norm_f) or []
             if reqs == "value":
                 required = [frozenset({Lit("is", MIN, "None"), canon(">=", E, MIN)}), frozenset({Lit("is", MAX, "None"), canon("<=", E, MAX)})]
             elif reqs == "min":
